@@ -19,7 +19,7 @@
 
 use crossbeam_channel as cbc;
 use log::{debug, error, info};
-use libfs::copy_node;
+use libfs::{copy_node, is_same_file};
 use std::fs::remove_file;
 use std::os::unix::fs::symlink;
 use std::path::{Path, PathBuf};
@@ -125,6 +125,9 @@ fn copy_worker(work: cbc::Receiver<Operation>, config: &Arc<Config>, updates: Ar
             Operation::Special(from, to) => {
                 info!("Worker[{:?}]: Special file {:?} -> {:?}", thread::current().id(), from, to);
                 if to.exists() {
+                    if is_same_file(&from, &to)? {
+                        return Err(XcpError::InvalidDestination("Source and destination are the same file.").into());
+                    }
                     if config.no_clobber {
                         return Err(XcpError::DestinationExists("Destination file exists and --no-clobber is set.", to).into());
                     }
